@@ -3,5 +3,5 @@
 set -e
 cd /verif
 mkdir -p .build/bin .cache/go evidence replays
-scripts/build.sh base
+scripts/build.sh all
 echo "setup ok"
